@@ -399,7 +399,17 @@ func c09gen(g *gen, tier string, w *bufio.Writer) {
 		kind := g.pick([]string{"v1", "v2"})
 		serial := serials[g.intn(len(serials))]
 		var toks []string
-		for _, l := range g.c09file(serial) {
+		file := g.c09file(serial)
+		if i%25 == 3 {
+			// a big location map: more range points than one chunk of the text scanner (100)
+			n := 55 + g.intn(200)
+			base := g.intn(200)
+			for k := 0; k < n; k++ {
+				file = append(file, fmt.Sprintf("%%%s,10.%d.%d.0/24,big", g.pick([]string{"aa", "bb", "cc", "\\000\\001"}), base+k/128, (2*k)%256))
+			}
+			g.shuffle(file)
+		}
+		for _, l := range file {
 			toks = append(toks, hexTok([]byte(l)))
 		}
 		fmt.Fprintf(w, "prep %s %d %s\n", kind, serial, strings.Join(toks, ";"))
